@@ -229,6 +229,10 @@ def isAwaitOf (n : String) : Ev → Bool
   | .aw m => m == n
   | .act _ => false
 
+def isReadOf (n : String) : Ev → Bool
+  | .act a => a.kind == .read && a.name == n
+  | .aw _ => false
+
 def isCallOf (n : String) : Ev → Bool
   | .act a => a.kind == .call && a.name == n
   | .aw _ => false
